@@ -84,7 +84,7 @@ class TreeBuilder:
             if k == 'return':
                 self.paths += 1
                 if self.paths > self.max_paths: raise TooComplex('more than %d paths in %s' % (self.max_paths, b['name']))
-                return env.get(0, ('c', ())), list(stores)
+                return self._export(env, env.get(0, ('c', ())), 0), [(self._export(env, t_, 0), self._export(env, v_, 0)) for t_, v_ in stores]
             if k in ('goto', 'drop', 'assert'):
                 bb = t['to']; continue
             if k == 'unreachable':
@@ -119,6 +119,15 @@ class TreeBuilder:
                     return ('diverge', self.F.callee_name(t)), list(stores)
                 bb = t['to']; continue
             raise TooComplex('terminator %s' % k)
+
+    def _export(self, env, v, d):
+        """a value leaving the function must not refer to the function's own locals: replace references to locals by references to their values"""
+        if not isinstance(v, tuple) or d > 50: return v
+        if v and v[0] == 'ref' and isinstance(v[1], tuple) and v[1] and v[1][0] == 'local':
+            return ('ref', self._export(env, self._resolve_local(env, v[1]), d + 1))
+        if v and v[0] == 'local':
+            return self._export(env, self._resolve_local(env, v), d + 1)
+        return tuple(self._export(env, x, d + 1) if isinstance(x, tuple) else x for x in v)
 
     def _merge(self, cond, branches, other):
         """switch -> ite(cond == v1, r1, ite(cond == v2, r2, ... otherwise))"""
@@ -545,6 +554,7 @@ def canon(e, opts=None):
             if op in ('vlt', 'vgt'):
                 return atom((op, lin_add(args[0], args[1], -1)))
             if op in ('floor', 'ceil'): return atom((op, args[0]))
+            if op == 'satadd' and opts.get('satadd_is_add'): return lin_add(args[0], args[1], 1)
             if op == 'satsub': return _minmax('max', [lin_add(args[0], args[1], -1), ('lin', (), 0)]) if opts.get('unsigned_satsub', True) else atom(('satsub',) + tuple(args))
             return atom(('call', op) + tuple(args))
         if t == 'ite':
